@@ -254,6 +254,76 @@ func structFields(t reflect.Type, prefix []int, out map[string][]int) {
 	}
 }
 
+// SliceLens walks a target that was NOT empty before unfolding along the
+// stream's value and reports the first slice whose length is not the number of
+// elements of the stream's array ("assigns every element": an array of n
+// elements makes a slice of n elements, whatever the variable held before).
+// Nothing is said about the contents of re-used elements.
+func SliceLens(dst reflect.Value, v model.V, path string, depth int) string {
+	if depth > 200 {
+		return ""
+	}
+	for dst.Kind() == reflect.Ptr {
+		if dst.IsNil() {
+			return ""
+		}
+		dst = dst.Elem()
+	}
+	if _, ok := poolAssign[dst.Type()]; ok {
+		return ""
+	}
+	switch dst.Kind() {
+	case reflect.Slice:
+		if v.K != model.VArr {
+			return ""
+		}
+		if dst.Len() != len(v.A) {
+			return fmt.Sprintf("%s: the stream's array has %d elements, the slice has %d", path, len(v.A), dst.Len())
+		}
+		for i := range v.A {
+			if m := SliceLens(dst.Index(i), v.A[i], fmt.Sprintf("%s[%d]", path, i), depth+1); m != "" {
+				return m
+			}
+		}
+	case reflect.Map:
+		if v.K != model.VObj || dst.Type().Key().Kind() != reflect.String {
+			return ""
+		}
+		last := map[string]model.V{}
+		for _, m := range v.O {
+			last[string(m.Key)] = m.Val
+		}
+		for k, mv := range last {
+			e := dst.MapIndex(reflect.ValueOf(k).Convert(dst.Type().Key()))
+			if !e.IsValid() {
+				continue
+			}
+			if m := SliceLens(e, mv, fmt.Sprintf("%s[%q]", path, k), depth+1); m != "" {
+				return m
+			}
+		}
+	case reflect.Struct:
+		if v.K != model.VObj {
+			return ""
+		}
+		fields := StructFields(dst.Type())
+		last := map[string]model.V{}
+		for _, m := range v.O {
+			last[string(m.Key)] = m.Val
+		}
+		for k, mv := range last {
+			idx, ok := fields[k]
+			if !ok {
+				continue
+			}
+			if m := SliceLens(dst.FieldByIndex(idx), mv, path+"."+k, depth+1); m != "" {
+				return m
+			}
+		}
+	}
+	return ""
+}
+
 // GenericFromV renders a value as generic Go data (for interface{} targets;
 // compared at value level only).
 func GenericFromV(v model.V) any {
